@@ -361,8 +361,9 @@ func runRange(r *ev.Run) {
 			return
 		}
 		loc := tally{}
-		_, rh := hashFns(false)
-		runRangeCase(r, cases[i], newHasher(rh), loc)
+		hs := getHasher(false)
+		runRangeCase(r, cases[i], hs, loc)
+		putHasher(false, hs)
 		mu.Lock()
 		for k, v := range loc {
 			total[k] += v
